@@ -86,6 +86,19 @@ def startAll (s : State) : List Job → State
   | [] => s
   | j :: q => startAll (startRun s j) q
 
+/-- cancel mode, `task.cancel()` while the coroutine runs: CancelledError in the coroutine, on_cancel,
+    then the shielded guard sleep; the controller waits in `await task` (with guard 0 the task ends in
+    this very instant, but the controller resumes only after it: what arrives in between joins the drain) -/
+def cancelCur (c : Cfg) (s : State) (r : Run) (rest : List Run) : State :=
+  { emit (emit s (.cancelled r.job)) (.canc r.job) with
+    runs := { r with coro := false, till := s.now + c.guard } :: rest }
+
+/-- start mode, `stop_async`: after the control task has ended (all runs gathered) run stop_data -/
+def startStopData (s : State) : State :=
+  match s.sdPending with
+  | some j => if s.stopped && s.runs.isEmpty then startRun { s with sdPending := none } j else s
+  | none => s
+
 /-- the control task (and, in start mode, `stop_async`) runs as far as it can -/
 def settle (c : Cfg) (s : State) : State :=
   match c.mode with
@@ -99,19 +112,8 @@ def settle (c : Cfg) (s : State) : State :=
     | j :: q =>
       match s.runs with
       | [] => drain { s with queue := [] } j q
-      | r :: rest =>
-        if r.coro then
-          -- task.cancel(): CancelledError in the coroutine, on_cancel, then the shielded guard sleep;
-          -- the controller waits in `await task` (with guard 0 the task ends in this very instant,
-          -- but the controller resumes only after it: what arrives in between joins the drain)
-          let s := emit (emit s (.cancelled r.job)) (.canc r.job)
-          { s with runs := { r with coro := false, till := s.now + c.guard } :: rest }
-        else s        -- guard sleep: the controller waits in `await task`
-  | .start =>
-    let s := startAll { s with queue := [] } s.queue
-    match s.sdPending with
-    | some j => if s.stopped && s.runs.isEmpty then startRun { s with sdPending := none } j else s
-    | none => s
+      | r :: rest => if r.coro then cancelCur c s r rest else s   -- guard sleep: the controller waits
+  | .start => startStopData (startAll { s with queue := [] } s.queue)
 
 def minTill : List Run → Option Nat
   | [] => none
@@ -129,21 +131,24 @@ def pick (t : Nat) : List Run → Option (List Run × Run × List Run)
       | some (a, x, b) => some (r :: a, x, b)
       | none => none
 
-/-- the timer of one run fires at `t` -/
+/-- the output task is over (the wrapper's `finally`), then whoever waited for it goes on -/
+def finishRun (c : Cfg) (s : State) (a b : List Run) : State :=
+  settle c (countDown { s with runs := a ++ b })
+
+/-- the coroutine's sleep is over: result event, then the guard sleep (if any) -/
+def coroEnd (c : Cfg) (s : State) (a : List Run) (r : Run) (b : List Run) : State :=
+  let s1 := emit (emit s (.done r.job)) (if r.job.data.fail then .err r.job else .succ r.job)
+  if c.guard > 0 then
+    { s1 with runs := a ++ { r with coro := false, till := s1.now + c.guard } :: b }
+  else finishRun c s1 a b
+
+/-- the timer of one run fires at `t` (timers never fire early: `t ≥ now` on every real trace) -/
 def fire (c : Cfg) (s : State) (t : Nat) : State :=
   match pick t s.runs with
   | none => s
   | some (a, r, b) =>
-    let s := { s with now := t }
-    if r.coro then
-      let s := emit s (.done r.job)
-      let s := emit s (if r.job.data.fail then .err r.job else .succ r.job)
-      if c.guard > 0 then
-        { s with runs := a ++ { r with coro := false, till := t + c.guard } :: b }
-      else
-        settle c (countDown { s with runs := a ++ b })
-    else
-      settle c (countDown { s with runs := a ++ b })
+    if r.coro then coroEnd c { s with now := max s.now t } a r b
+    else finishRun c { s with now := max s.now t } a b
 
 /-- is an internal timer at `m` due w.r.t. the bound: `none` = run to completion,
     `(t, incl)` = everything before `t`, and at `t` itself iff `incl` -/
